@@ -199,12 +199,23 @@ func VP_C07_reject() {
 // of 300 KiB and just below 2 MiB with arbitrary first/last byte and id, each
 // threshold class, whole-slice comparisons.
 func VP_C07_huge() {
-	sizes := []int{300 << 10, MaxDataLength - 100, MaxDataLength - 6}
-	n := sizes[vp.Choice(len(sizes))]
+	// 32767, 65535, 327679: with a one-byte id the inflated size is an exact
+	// multiple of the 32 KiB deflate window, where the real inflater hands out the
+	// last window before it has read the final block and the checksum (a reader
+	// that is not drained then leaves them in the stream; the model codec reads
+	// its trailer lazily for every size, the native replay confirms at these)
+	sizes := []int{32767, 65535, 327679, 300 << 10, MaxDataLength - 100, MaxDataLength - 6}
+	k := vp.Choice(len(sizes))
+	n := sizes[k]
+	tailLabel := "exactly one frame consumed"
+	if k < 3 {
+		tailLabel = "exactly one frame consumed (inflated size a multiple of 32 KiB)"
+	}
 	vp.SizeBound(5 * n)
 	vp.Unwind(n + 64)
 	bufPool = sync.Pool{New: func() any { return new(bytes.Buffer) }}
 	id := vpSmallPacketID()
+	vp.Assume(id < 128)
 	data := vp.Noise(n)
 	data[0], data[n-1] = vp.Byte(), vp.Byte()
 	t := []int{-1, 0, 256}[vp.Choice(3)]
@@ -231,7 +242,7 @@ func VP_C07_huge() {
 	vp.Assert(q.UnPack(r, t) == nil, "UnPack err==nil")
 	vp.Assert(q.ID == id, "id round trip")
 	vp.Assert(string(q.Data) == string(data), "payload round trip")
-	vp.Assert(r.Len() == 1, "exactly one frame consumed")
+	vp.Assert(r.Len() == 1, tailLabel)
 	vp.Cover("end")
 }
 
